@@ -297,7 +297,7 @@ func runC07(c *Ctx) {
 	c.Bound("A", fmt.Sprintf("K=2 concurrent callers, every pair of kinds %v; peer delivers owed acknowledgements in every order with <=%d foreign/duplicate/unsolicited acknowledgements from the menu in between; P<=%d", kinds, fo, p1-1))
 	c.Bound("B", fmt.Sprintf("K=2, peer answers inside the client's Write (acknowledgement can overtake the caller); all schedules with P<=%d, S<=1", p2))
 	c.Bound("C", "K=3, every multiset of kinds; acknowledgements in every order; P=0 (thorough: <=1 foreign acknowledgement)")
-	c.Bound("D", "single Subscribe of 1 and 2 filters x every SUBACK return-code vector over {0,1,2,0x80}^n and wrong lengths 0, n-1, n+1")
+	c.Bound("D", "single Subscribe of 1 and 2 filters x every SUBACK return-code vector over {0,1,2,0x80}^n and wrong lengths 0, n-1, n+1 x transport Close succeeding / returning an error")
 	for _, a := range kinds {
 		for _, b := range kinds {
 			run(fmt.Sprintf("C07/A/%s+%s/foreign%d", a, b, fo), c07Cfg{kinds: []string{a, b}, foreign: fo, bound: vrt.Budget{P: p1 - 1}})
@@ -359,6 +359,10 @@ func c07SubAckVectors(c *Ctx) {
 					return
 				}
 				vec := vecs[vrt.Choose(vrt.KFree, len(vecs), "suback vector")]
+				if vrt.Choose(vrt.KFree, 2, "transport Close succeeds / reports an error") == 1 {
+					// e.g. a failed TLS or WebSocket closing handshake; the verdict on the SUBACK must not depend on it
+					s.Conn.CloseErr = errors.New("c07: closing handshake failed")
+				}
 				s.OnPacket = func(_ *env.Script, p *env.Packet) {
 					if p.Type == env.SUBSCRIBE {
 						s.Conn.Send(env.EncSubAck(p.ID, vec), "")
